@@ -247,7 +247,7 @@ def lib_min_max(which):
 def install(eng):
     eng.lib.update({"any": lib_any_all("any"), "all": lib_any_all("all"), "min": lib_min_max("min"), "max": lib_min_max("max")})
     eng.lib.update({
-        "len": lib_len, "abs": lib_abs, "partial": lambda e, st, a, kw, node: VPartial(a[0], a[1:], kw), "getattr": lib_getattr, "isinstance": lib_isinstance, "dict": lib_dict, "list": lib_list, "np.asarray": lib_asarray, "np.array": lib_asarray,
+        "len": lib_len, "abs": lib_abs, "np.abs": lib_abs, "np.absolute": lib_abs, "partial": lambda e, st, a, kw, node: VPartial(a[0], a[1:], kw), "getattr": lib_getattr, "isinstance": lib_isinstance, "dict": lib_dict, "list": lib_list, "np.asarray": lib_asarray, "np.array": lib_asarray,
         "float": lib_float, "set": lib_set, "zip": lib_zip, "enumerate": lib_enumerate, "range": lib_range, "np.ones_like": lib_np_ones_like, "np.isscalar": lib_np_isscalar,
         "np.diff": lib_np_diff, "np.all": lib_np_all, "np.any": lib_np_any,
         "np.sort": lib_np_sort, "np.zeros": lib_np_zeros, "np.zeros_like": lib_np_zeros_like,
